@@ -247,6 +247,9 @@ mut('fixed-c17-broadcast-larger', 'C17', 'odl/space/npy_tensors.py',
     "                    out_space = type(self.space)(res.shape, res.dtype,\n                                                 **spc_kwargs)\n                    out = out_space.element(res)\n\n                return out\n",
     "                    out_space = type(self.space)(self.shape, res.dtype,\n                                                 **spc_kwargs)\n                    out = out_space.element(res)\n\n                return out\n")
 
+mut('fixed-c17-writable-array-0d', 'C17', 'odl/util/utility.py',
+    "            if arr.ndim == 0:\n", "            if False:\n")
+
 
 def _apply(scratch, m):
     p = os.path.join(scratch, m['file'])
